@@ -26,11 +26,15 @@ def build(name, x, nfft, sampling=1.0, scale=False, **over):
             p['mtm'] = variant
         elif name == 'Periodogram':
             p['window'] = variant
+        elif name == 'pburg':
+            p['criteria'] = variant
     kw = dict(NFFT=nfft, sampling=sampling, scale_by_freq=scale)
     if name == 'Periodogram':
         return sp.Periodogram(x, window=p.get('window', 'hann'), **kw)
     if name == 'pcorrelogram':
         return sp.pcorrelogram(x, lag=p['corrlag'], **kw)
+    if name == 'pburg' and p.get('criteria'):
+        return sp.pburg(x, p['order'], criteria=p['criteria'], **kw)
     if name in ('pburg', 'pyule', 'pcovar', 'pmodcovar', 'pminvar'):
         return getattr(sp, name)(x, p['order'], **kw)
     if name == 'parma':
